@@ -51,3 +51,8 @@ CHECKS["C03"] = ("exploration",
    "Logical workbooks are written by an independent xlsb encoder with every cell record kind and 0..n ignorable records (real/future ids, 1-2 byte ids, 1-4 byte lengths, header-like payload bytes) between any two records, then read through worksheet_range / worksheet_range_ref and compared with the model; RK decoding is swept through generated sheets of BrtCellRk cells against a reference decoder.",
    "trusted base: the xlsb reference encoder; minimal varint encodings; block records only in pairs",
    "DESIGN.md §7 C03")
+CHECKS["C18"] = ("exploration",
+   "runtime monitoring: independent MS-OVBA compressor under five tokenisation strategies vs byte-equality oracle (hook sweep + whole projects through vba_project)",
+   "Module sources are compressed by an independent compressor (literal-only, greedy, random tokenisation with overlapping/maximal copies, raw chunks, mixtures; self-checked against its own reference decompressor), decompressed through a hook around decompress_stream, and embedded in whole projects (xlsm/xlsb part, xls storage; several code pages, offsets, reference kinds, compound-file layouts) that are read through vba_project(); names, raw bytes, decoded text and reference names are compared.",
+   "trusted base: the MS-OVBA reference compressor and dir-stream writer, encoding_rs for code pages",
+   "DESIGN.md §7 C18")
